@@ -22,6 +22,16 @@ type replayT struct {
 	Case    Case   `json:"case"`
 	Choices []int  `json:"choices"`
 	Extra   string `json:"extra,omitempty"`
+	// Cfg is the scheduler configuration of the execution (bounds phases differ in it); the
+	// choice list is only meaningful under the same configuration.
+	Cfg *vrt.Config `json:"cfg,omitempty"`
+}
+
+// withCfg records the configuration x ran under.
+func (r replayT) withCfg(x *vrt.Exec) replayT {
+	c := x.Config()
+	r.Cfg = &c
+	return r
 }
 
 func baseCfg() vrt.Config {
@@ -164,6 +174,10 @@ func replayMode() {
 	}
 	rp := art.Violation.Replay
 	res.Part = rp.Mode
+	if os.Getenv("VERIF_TRACE") != "" {
+		tf, _ := os.Create("/tmp/sched_trace.log")
+		vrt.TraceFn = func(l string) { fmt.Fprintln(tf, l) }
+	}
 	if rp.Mode == "c07" {
 		var a Attack
 		json.Unmarshal([]byte(rp.Extra), &a)
@@ -255,6 +269,9 @@ func replayMode() {
 		env = c05Env(p, c05x.Flusher, c05x.Fault)
 		cfg = c05Cfg()
 	}
+	if rp.Cfg != nil {
+		cfg = *rp.Cfg
+	}
 	wd := &wireDump{inner: env.Obs}
 	env.Obs = wd
 	x, err := vrt.Replay(cfg, rp.Choices, func() { runTransfer(p, env) })
@@ -318,7 +335,7 @@ func keyOf(c Case) string { return c.String() }
 // ---- C03: every transfer between healthy peers completes ----
 
 func checkC03(p *Prepared, x *vrt.Exec, o *Outcome) {
-	rp := replayT{Mode: "c03", Case: p.Case, Choices: append([]int{}, x.Choices()...)}
+	rp := replayT{Mode: "c03", Case: p.Case, Choices: append([]int{}, x.Choices()...)}.withCfg(x)
 	switch x.Outcome {
 	case "ok":
 	case "deadlock", "stall":
@@ -481,6 +498,34 @@ func modeC03() {
 		os.RemoveAll(p.SrcRoot)
 	}
 	res.Extra["d2_cases"] = fmt.Sprint(nd2)
+	// phase 3 (thorough, or lockphase=1): the smallest transfers once more with mutex acquisitions
+	// as scheduling points and the demote deviation at bound 2 - check-then-act sequences on
+	// mutex-protected state (registries, counters) are out of reach without lock points
+	if thorough || os.Getenv("VERIF_LOCKPHASE") != "" {
+		nl := 0
+		for _, c := range []Case{
+			{Tree: []Entry{{Path: "a", Size: 4}}, Chunk: 4, Streams: 1, Conns: 1, Resume: true, NoRootDir: true},
+			{Tree: []Entry{{Path: "a", Size: 8}}, Chunk: 4, Streams: 2, Conns: 1, Resume: false, NoRootDir: true},
+			{Tree: []Entry{{Path: "a", Size: 4}, {Path: "b", Size: 0}}, Chunk: 4, Streams: 1, Conns: 1, Resume: true, NoRootDir: true},
+		} {
+			p, err := prepare(c)
+			if err != nil {
+				continue
+			}
+			nl++
+			env := envFor("c03", p, "")
+			cfg := baseCfg()
+			cfg.LockPoints = true
+			cfg.Demote = true
+			before := st.execs
+			exploreSharded(st, p, env, 2, deadline, cfg, true, func(x *vrt.Exec, o *Outcome) {
+				checkC03(p, x, o)
+				res.Nontrivial(fmt.Sprintf("L2|%s|%x", keyOf(c), x.Trace()))
+			})
+			res.Extra[fmt.Sprintf("lock_phase_execs_case%d", nl)] = float64(st.execs - before)
+			os.RemoveAll(p.SrcRoot)
+		}
+	}
 	st.cases = n
 	res.Extra["deviation_bound"] = "grid D=0; tight set D=" + strconv.Itoa(d1)
 	st.finish()
@@ -511,7 +556,7 @@ func checkC01(p *Prepared, x *vrt.Exec, o *Outcome) {
 		}
 		res.Violate("mismatch", "xfer/c01", map[string]any{"class": kind, "pre": p.Case.Pre},
 			fmt.Sprintf("%s: both sides report success but the tree differs: %s", p.Case, o.TreeDiff),
-			replayT{Mode: "c01", Case: p.Case, Choices: append([]int{}, x.Choices()...)})
+			replayT{Mode: "c01", Case: p.Case, Choices: append([]int{}, x.Choices()...)}.withCfg(x))
 	}
 }
 
